@@ -101,6 +101,15 @@ type Ctx struct {
 	implTypes   map[string]types.Type
 	topFrame    *frame
 	useHashable bool
+	stable      []stableCell
+	atCallSeen  map[string]int
+}
+
+// stableCell is a memory cell no callee can write: a non-escaping local or a
+// captured variable of the closure under verification.
+type stableCell struct {
+	addr T
+	typ  types.Type
 }
 
 func NewCtx(w *World, fn *ssa.Function, opt Options) *Ctx {
@@ -126,6 +135,8 @@ func (c *Ctx) reset() {
 	c.inlineDepth = 0
 	c.prefix = ""
 	c.allocs = nil
+	c.stable = nil
+	c.atCallSeen = map[string]int{}
 	c.ifaceLoads = nil
 	c.frameSeq = 0
 	if c.implTypes == nil {
@@ -276,6 +287,39 @@ func (c *Ctx) havocAll(st *State) {
 			c.loopAll[k] = true
 		}
 	}
+	// leaves of stable cells keep their value
+	type keep struct {
+		heap string
+		addr T
+		val  T
+	}
+	var keeps []keep
+	var leaves func(a T, t types.Type)
+	leaves = func(a T, t types.Type) {
+		switch u := under(t).(type) {
+		case *types.Struct:
+			for i := 0; i < u.NumFields(); i++ {
+				leaves(Fld(a, c.R.FieldID(t, i)), u.Field(i).Type())
+			}
+		case *types.Array:
+			for i := int64(0); i < u.Len() && i < 8; i++ {
+				leaves(Idx(a, IntLit(i)), u.Elem())
+			}
+		default:
+			h := c.R.CellHeap(c.R.SortOf(t))
+			keeps = append(keeps, keep{h, a, Select(c.getHeap(st, h), a)})
+		}
+	}
+	for _, sc := range c.stable {
+		leaves(sc.addr, sc.typ)
+	}
+	defer func() {
+		for _, k := range keeps {
+			if cur, ok := st.heaps[k.heap]; ok {
+				c.emit("(assert (= (select %s %s) %s))", cur.S, k.addr.S, k.val.S)
+			}
+		}
+	}()
 	names := append([]string(nil), c.R.heapOrder...)
 	for _, n := range names {
 		if n == HAlloc {
@@ -286,7 +330,7 @@ func (c *Ctx) havocAll(st *State) {
 			c.emit("(assert (forall ((a Ref)) (! (=> (select %s a) (select %s a)) :pattern ((select %s a)))))", old.S, nw.S, nw.S)
 			continue
 		}
-		if n == HLockW || n == HLockR {
+		if n == HLockW || n == HLockR || n == HDefW || n == HDefR {
 			continue // callees are lock-balanced unless their contract says otherwise
 		}
 		c.havocHeap(st, n)
